@@ -140,6 +140,23 @@ def run_plan_property(prop, tier, seed, checks, nontrivial, describe, known_filt
             given = p_e2e.run_runtime(ES, tier, seed, fault_free_only=True)
             nrun, _ = p_e2e.judge_runtime(R, ES, tier, seed, {prop}, given=given)
             R.coverage["fault_free_runs_of_compiled_injectors"] = nrun
+            if prop == "C01" and given[0] is not None and not R.violations:
+                # the same fault-free runs under the race detector (the statement's last clause)
+                rc_r, out_r = ES["E"].build_runner(race=True)
+                if rc_r != 0:
+                    R.violation("the runner does not build with -race: %s" % out_r[-400:], {"kind": "correspondence-broken", "correspondence": "race build of the rendered package", "detail": out_r[-1500:]})
+                else:
+                    sp = given[0] if tier != "quick" else given[0][:140]
+                    clean = [{k: v for k, v in x.items() if k in ("Name", "Fail", "DelayIn", "CancelOn", "Hold", "Timeout")} for x in sp]
+                    res_r, err_r = ES["E"].run_specs(clean, race=True, timeout=1200)
+                    R.coverage["race_detector_runs"] = len(res_r)
+                    if "DATA RACE" in (err_r or ""):
+                        m = __import__("re").search(r"e2e/p\.(Init\d+)", err_r)
+                        inj = m.group(1) if m else None
+                        k = int(inj[4:]) if inj else None
+                        R.violation("the race detector reports a data race in the generated injector %s  [declaration: %s]" % (inj, ES["E"].decls.get(k)),
+                                    {"kind": "input", "failing_input": ES["E"].decls.get(k), "injector": inj, "race_report": err_r[:3000],
+                                     "reproduce": "render the declaration (vlib/render.py), run kessoku, build cmd/run with -race and call the injector"})
         if ediffs and not R.violations:
             if True:
                 i, l, a, b = ediffs[0]
